@@ -67,13 +67,13 @@ func (x *Exec) calleeName(c *ssa.CallCommon, fv Value) string {
 		return c.Method.Name()
 	}
 	if f := c.StaticCallee(); f != nil {
-		return f.Name()
+		return stripTypeArgs(f.Name())
 	}
 	if b, ok := c.Value.(*ssa.Builtin); ok {
 		return b.Name()
 	}
 	if fv.Fn != nil {
-		return fv.Fn.Fn.Name()
+		return stripTypeArgs(fv.Fn.Fn.Name())
 	}
 	return exprTextShort(c.Value)
 }
@@ -414,6 +414,9 @@ func (x *Exec) applyContract(st *State, fi int, ct *Contract, callee *ssa.Functi
 			x.recHeap(name)
 			if objs == nil || !strings.HasPrefix(sortS, "(Array Ref") {
 				st2.heap[name] = x.decls.Fresh("post."+name, sortS)
+				if name == "G$loglen" {
+					st2.assume(Le(IntLit(0), st2.heap[name]))
+				}
 				continue
 			}
 			cur := x.heapGet(st2, name, sortS)
@@ -464,13 +467,14 @@ func (x *Exec) applyContract(st *State, fi int, ct *Contract, callee *ssa.Functi
 		// events appended on both the normal and the panicking outcome
 		doEmits(ct.Emits)
 		if panicked {
+			pv := x.freshValue(st2, "panicval", types.Universe.Lookup("any").Type())
+			st2.assume(Not(Eq(iTag(pv.T), IntLit(0))))
+			penv.vars["panicval"] = pv
 			for _, en := range ct.EnsPanic {
 				if t, ok := x.evalClause(st2, &penv, en); ok {
 					st2.assume(t)
 				}
 			}
-			pv := x.freshValue(st2, "panicval", types.Universe.Lookup("any").Type())
-			st2.assume(Not(Eq(iTag(pv.T), IntLit(0))))
 			st2.panicking = &pv
 			pan(st2)
 			return
@@ -694,4 +698,23 @@ func (x *Exec) doSelect(st *State, fi int, in *ssa.Select) {
 		vals = append(vals, x.freshValue(st, "select.recv", tup.At(i).Type()))
 	}
 	x.setReg(st, fi, in, Value{Tup: vals, Typ: in.Type()})
+	// ghost anchor "select#k": idx (chosen case, -1 = default), recv0.. (received values)
+	n2 := 0
+	for _, b := range st.frames[fi].fn.Blocks {
+		for _, i := range b.Instrs {
+			if _, ok := i.(*ssa.Select); ok {
+				n2++
+				if i == ssa.Instruction(in) {
+					extra := map[string]Value{"idx": vals[0]}
+					for j := 2; j < len(vals); j++ {
+						extra[fmt.Sprintf("recv%d", j-2)] = vals[j]
+					}
+					for j, s := range in.States {
+						extra[fmt.Sprintf("chan%d", j)] = x.val(st, fi, s.Chan)
+					}
+					x.ghostAtX(st, fi, fmt.Sprintf("select#%d", n2), "", nil, extra)
+				}
+			}
+		}
+	}
 }
